@@ -12,6 +12,7 @@ from .nf import Val, ShapeError, LayoutError, Undecided
 from .dim import Dim, D, dim_le, dim_lt
 
 MAX_DEPTH = 14
+ALL_CALLS = set()
 
 
 class PyRaise(Exception):
@@ -364,6 +365,7 @@ class Interp:
         s._bind(fn.args, args, kw, env, Env(mod=mod, cls=owner), has_self)
         qn = f"{owner + '.' if owner else ''}{fn.name}"
         s.calls.append((mod, qn))
+        ALL_CALLS.add((mod, qn))
         s.stack.append((mod, qn))
         s.depth += 1
         saved = s.site
